@@ -197,6 +197,53 @@ pub fn gen_asm_sibling(t: &mut Tape) -> String {
     s
 }
 
+/// v5: one construct that answers with SEVERAL diagnostics at once: a `#bankdef` block whose field list carries 2-5
+/// names the block does not know (between, before and behind valid fields), sometimes two such blocks; the order of
+/// the diagnostics is part of the result
+pub fn gen_multi_diag(t: &mut Tape) -> String {
+    let unknown = ["base", "length", "fillbyte", "origin", "width", "align", "pad", "offset", "end", "unit", "outsize", "bit"];
+    let valid = ["bits = 8", "addr = 0x8000", "size = 0x100", "outp = 0", "fill = true", "labelalign = 8", "addr_end = 0x9000"];
+    let mut s = String::new();
+    let blocks = t.urange(1, 2);
+    for b in 0..blocks {
+        let mut fields: Vec<String> = Vec::new();
+        let nv = t.urange(0, 3);
+        let mut vi: Vec<usize> = (0..valid.len()).collect();
+        for i in (1..vi.len()).rev() {
+            let j = t.below(i + 1);
+            vi.swap(i, j);
+        }
+        for i in vi.into_iter().take(nv) {
+            // size and addr_end exclude each other
+            if valid[i].starts_with("addr_end") && fields.iter().any(|f| f.starts_with("size")) {
+                continue;
+            }
+            if valid[i].starts_with("size") && fields.iter().any(|f| f.starts_with("addr_end")) {
+                continue;
+            }
+            fields.push(valid[i].to_string());
+        }
+        let nu = t.urange(2, 5);
+        let mut ui: Vec<usize> = (0..unknown.len()).collect();
+        for i in (1..ui.len()).rev() {
+            let j = t.below(i + 1);
+            ui.swap(i, j);
+        }
+        for i in ui.into_iter().take(nu) {
+            let at = t.below(fields.len() + 1);
+            fields.insert(at, format!("{} = {}", unknown[i], t.below(300)));
+        }
+        let hash = t.flip();
+        s.push_str(&format!("#bankdef bk{}\n{{\n", b));
+        for f in fields {
+            s.push_str(&format!("    {}{}\n", if hash { "#" } else { "" }, if hash { f.replacen(" =", "", 1) } else { f }));
+        }
+        s.push_str("}\n");
+    }
+    s.push_str("start:\n#d8 1, 2, 3\n");
+    s
+}
+
 fn first_difference(a: &str, b: &str) -> String {
     for (la, lb) in a.lines().zip(b.lines()) {
         if la != lb {
@@ -211,7 +258,7 @@ impl Property for C10 {
         "C10"
     }
     fn rule(&self) -> String {
-        "each case = one job (generated size-static or cascading program with many sibling symbols and rules, corpus program, mutated corpus program, or - one in six - a root file including 2-4 files with the same byte layout so that equal byte ranges and equal values tie across files, or - one in eight - an instruction set whose rules reach the same text from different prefix buckets of the matcher index, with lines that tie or fail every candidate, or - one in eight - two to four input files on one command line, or - one in eight - a program that reads three data files through incbin / incbinstr / inchexstr, whose history consists of the same program over other file contents under the same names; failing programs included) x one \
+        "each case = one job (generated size-static or cascading program with many sibling symbols and rules, corpus program, mutated corpus program, or - one in six - a root file including 2-4 files with the same byte layout so that equal byte ranges and equal values tie across files, or - one in eight - an instruction set whose rules reach the same text from different prefix buckets of the matcher index, with lines that tie or fail every candidate, or - one in eight - two to four input files on one command line, or - one in eight - a program that reads three data files through incbin / incbinstr / inchexstr, whose history consists of the same program over other file contents under the same names, or - (v5) one in eight - a `#bankdef` block (or two) whose field list carries 2-5 unknown field names among valid ones, so that one construct answers with several diagnostics whose order is part of the result; failing programs included) x one \
          command line with up to 5 output groups drawn from fixed format sets (incl. symbols, mesen-mlb, annotated, addrspan, and command lines with several invalid format parameters) run \
          4 times in one process: on the worker thread, on a fresh thread, and on both again after a random history of 1-3 other jobs; every 40th case additionally runs the real binary 3 \
          times in fresh processes (stdout, stderr, exit status, files) and compares the files with the in-process run. Oracle: the full record - success flag, printed diagnostics, every \
@@ -237,7 +284,11 @@ impl Property for C10 {
         let incfile = crate::engine::gen_version() >= 2 && !twins && !buckets && t.chance(1, 8);
         let multi = crate::engine::gen_version() >= 3 && !twins && !buckets && !incfile && t.chance(1, 8);
         let siblings = crate::engine::gen_version() >= 4 && !twins && !buckets && !incfile && !multi && t.chance(1, 8);
-        let job = if siblings {
+        let multidiag = crate::engine::gen_version() >= 5 && !twins && !buckets && !incfile && !multi && !siblings && t.chance(1, 8);
+        let job = if multidiag {
+            ctx.label("multi-diagnostic-block");
+            Job { origin: "multi-diag".into(), files: vec![("main.asm".into(), gen_multi_diag(t).into_bytes())], root: "main.asm".into(), generated: true }
+        } else if siblings {
             ctx.label("asm-siblings");
             // the siblings run first, on this thread; the job itself is then compared with a run on a fresh thread
             for _ in 0..t.urange(1, 3) {
@@ -284,7 +335,7 @@ impl Property for C10 {
         let text = job.files.iter().find(|f| f.0 == job.root).map(|f| String::from_utf8_lossy(&f.1).to_string()).unwrap_or_default();
         let nsym = text.lines().filter(|l| l.trim_end().ends_with(':') || l.contains(" = ")).count();
         let ndiag = r0.matches("error:").count();
-        ctx.nontrivial = nsym >= 8 || ndiag >= 2 || set.len() == 1 || twins || buckets || incfile || multi || siblings;
+        ctx.nontrivial = nsym >= 8 || ndiag >= 2 || set.len() == 1 || twins || buckets || incfile || multi || siblings || multidiag;
         ctx.label(if r0.starts_with("ok=true") { "succeeds" } else { "fails" });
         ctx.render(|| json!({"job": job_json(&job), "args": args}));
         let fail = |ctx: &mut CaseCtx, how: &str, a: &str, b: &str| -> Verdict {
